@@ -17,7 +17,9 @@ type String struct {
 }
 
 func NewString() *String {
-	return &String{}
+	// an empty, non-nil value: a string key that exists never reads back as nil (GET would render a
+	// freshly created, still empty string as "no such key", and differently after a reload)
+	return &String{V: []byte{}}
 }
 
 // Type returns the type of the data structure
